@@ -5,7 +5,22 @@ type SinkPlan struct {
 	K       int  `json:"k"`       // the Write call that crosses byte K fails; K<0: never fails
 	Sticky  bool `json:"sticky"`  // true: every later call fails too; false: only that one call fails
 	Partial bool `json:"partial"` // true: the failing call accepts the bytes up to K and returns (m, err); false: (0, err)
+	// Rich: the destination also implements io.ByteWriter and io.StringWriter (as
+	// *bufio.Writer, *bytes.Buffer, *os.File ... do); encoders may take those paths.
+	Rich bool `json:"rich,omitempty"`
 }
+
+// RichSink is a Sink that also offers WriteByte and WriteString.
+type RichSink struct{ *Sink }
+
+// WriteByte implements io.ByteWriter under the same plan.
+func (s RichSink) WriteByte(b byte) error {
+	_, err := s.Sink.Write([]byte{b})
+	return err
+}
+
+// WriteString implements io.StringWriter under the same plan.
+func (s RichSink) WriteString(x string) (int, error) { return s.Sink.Write([]byte(x)) }
 
 // Sink is an io.Writer executing a SinkPlan.
 type Sink struct {
